@@ -48,6 +48,37 @@ def run(P, R, tier, cfg):
     _retract(P, R)
     _records(P, R)
     _cascade(P, R)
+    _dependents_kept(P, R)
+
+
+def _dependents_kept(P, R):
+    """fact_dependents (premise -> ids of the justifications resting on it) is what the cascade walks. Dropping a premise's whole
+    entry forgets every sibling justification that still rests on it, so a later retraction of that premise cascades to
+    nothing. Outside `clear`, an entry may be removed only for the fact that is itself being retracted (its dependents have
+    been handed to the cascade); anything else may at most take single ids out of an entry's list."""
+    n = 0
+    for fn in sorted(P.fns.values(), key=lambda f: f.name):
+        if fn.impl_self != TMS and not (fn.kind == "closure" and fn.name.startswith(TMS + "::")):
+            continue
+        for (c, recv) in A.calls_with_receiver_field(fn, "fact_dependents", TMS):
+            op = c.name.rsplit("::", 1)[-1]
+            if op not in ("remove", "remove_entry", "retain", "drain", "clear", "take"):
+                continue
+            if not c.name.split("<")[0].endswith(("HashMap::" + op,)) and "HashMap" not in c.name:
+                continue
+            n += 1
+            if fn.short_name == "clear" and op == "clear":
+                R.hold("e", "TMS::clear empties fact_dependents together with every other table", fn=fn, line=c.line)
+                continue
+            key = strip(fn.sym_operand(c.args[1])) if len(c.args) > 1 else ("none",)
+            own = key[0] == "param" or (key[0] in ("field", "var") and any(x[0] == "param" and x[1] >= 2 for x in walk(key)) and not any(x[0] == "call" and x[1] not in ("std::ops::Deref::deref",) and x[4] not in ("std::ops::Deref::deref", "std::borrow::Borrow::borrow") for x in walk(key)))
+            if op in ("remove", "remove_entry") and own and fn.short_name.startswith("retract"):
+                R.hold("e", "%s drops the dependents entry of the fact it retracts" % fn.short_name, fn=fn, line=c.line)
+            else:
+                R.violate("e", "dependents-dropped:%s" % fn.short_name,
+                          "%s removes a whole entry of fact_dependents (%s, key `%s`): every other justification resting on that premise is forgotten, and a later retraction of the premise no longer reaches the facts derived from it" % (fn.short_name, op, fmt_sym(key, maxdepth=5)[:60]), fn, c.line)
+    if n == 0:
+        R.hold("e", "no function removes entries from fact_dependents (the cascade always sees every dependent)")
 
 
 def _inserts(P, R):
